@@ -10,7 +10,7 @@ import rewriters as R
 class C03(Prop):
     id = "C03"
     driver = "Compose"
-    lean_modules = ["Pfb.C03.Props"]
+    lean_modules = ["Pfb.C03.Props", "Pfb.C03.Lines"]
     theorems = [
         "Pfb.C03.C03_future_first",
         "Pfb.C03.prefixMatch_pos_head",
@@ -19,6 +19,9 @@ class C03(Prop):
         "Pfb.C03.C03_add_total",
         "Pfb.C03.C03_remove_unique_as",
         "Pfb.C03.fromImportsShadow_unique",
+        "Pfb.C03.C03_no_ambiguity",
+        "Pfb.C03.C03_remove_not_ambiguous",
+        "Pfb.C03.ranges_sorted",
     ]
     anchors = [
         ("lib/python/pyflyby/_imports2s.py", "SourceToSourceFileImportsTransformation.select_import_block_by_closest_prefix_match"),
